@@ -15,6 +15,7 @@ import (
 	"github.com/gokrazy/rsync/verifharness/core"
 	"github.com/gokrazy/rsync/verifharness/drive"
 	"github.com/gokrazy/rsync/verifharness/sched"
+	rp "github.com/gokrazy/rsync/verifharness/refproto"
 	tm "github.com/gokrazy/rsync/verifharness/treemodel"
 )
 
@@ -603,11 +604,112 @@ func c18BuildRace(tier string) core.Source {
 	}}
 }
 
+// c18BuildAborted: a peer requests a large file and drops the connection
+// mid-file; whatever the aborted session leaves running (goroutines that still
+// read the file) must not interfere with the ordinary sessions that follow
+// immediately and concurrently on the same Server. Free-running under the race
+// detector.
+func c18BuildAborted(tier string) core.Source {
+	drive.Quiet()
+	type cs struct {
+		procs, rounds int
+		cutAfter      int
+	}
+	var cases []cs
+	for _, p := range []int{1, 4, 16} {
+		for _, cut := range []int{1 << 16, 1 << 20} {
+			cases = append(cases, cs{p, 3, cut})
+		}
+	}
+	bigData := genData(famHash, 24<<20, 181)
+	var mid tm.Tree
+	for k := 0; k < 4; k++ {
+		mid = append(mid, tm.File(fmt.Sprintf("m%d", k), genData(famHash, 300000+k*70001, uint32(190+k)), 0o644, tm.Past))
+	}
+	return core.FuncSource{N: len(cases), F: func(i int) core.Result {
+		c := cases[i]
+		res := core.Result{Case: fmt.Sprintf("free-running: %d rounds of {a download of a 24 MiB file dropped by the peer after %d bytes, then 4 concurrent ordinary downloads} on one Server, GOMAXPROCS=%d, race detector on", c.rounds, c.cutAfter, c.procs)}
+		prev := setMaxProcs(c.procs)
+		defer setMaxProcs(prev)
+		dir := workDir()
+		defer cleanup(dir)
+		tm.Tree{tm.File("big", bigData, 0o644, tm.Past)}.Materialise(filepath.Join(dir, "big"))
+		mid.Materialise(filepath.Join(dir, "mid"))
+		srv, _ := rsyncd.NewServer([]rsyncd.Module{{Name: "big", Path: filepath.Join(dir, "big")}, {Name: "mid", Path: filepath.Join(dir, "mid")}}, rsyncd.DontRestrict(), rsyncd.WithStderr(io.Discard), rsyncd.WithLogger(nullLogger{}))
+		for round := 0; round < c.rounds; round++ {
+			// the aborting peer: handshake, empty filter list, request index 1 ("big") in full, read a while, vanish
+			c2s, s2c := drive.NewPipe(false), drive.NewPipe(false)
+			sdone := make(chan struct{})
+			go func() {
+				defer close(sdone)
+				srv.HandleDaemonConn(context.Background(), rsyncd.NewConnection(c2s, s2c, "127.0.0.1:2000"))
+				s2c.Close()
+			}()
+			var w rp.W
+			w.Int(0) // end of filter list
+			w.Int(1) // index of "big" ("." is 0)
+			rp.SumHead{Count: 0, BLen: 700, S2Len: 16}.Write(&w)
+			c2s.Write([]byte("@RSYNCD: 27\nbig\n--server\n--sender\n-r\n.\nbig/\n\n"))
+			c2s.Write(w.Bytes())
+			buf := make([]byte, 32768)
+			for got := 0; got < c.cutAfter; {
+				n, err := s2c.Read(buf)
+				got += n
+				if err != nil {
+					break
+				}
+			}
+			s2c.Close()
+			c2s.Close()
+			// ordinary sessions start at once, concurrently with whatever the aborted session left behind
+			var wg sync.WaitGroup
+			errs := make([]error, 4)
+			for k := 0; k < 4; k++ {
+				wg.Add(1)
+				go func(k int) {
+					defer wg.Done()
+					a, b := drive.NewPipe(false), drive.NewPipe(false)
+					client, _ := rsyncclient.New([]string{"-rt"}, rsyncclient.DontRestrict(), rsyncclient.WithStderr(io.Discard))
+					done := make(chan struct{})
+					go func() {
+						defer close(done)
+						srv.HandleDaemonConn(context.Background(), rsyncd.NewConnection(a, b, fmt.Sprintf("127.0.0.1:%d", 3000+k)))
+						b.Close()
+					}()
+					_, errs[k] = client.RunDaemon(context.Background(), &drive.RW{Reader: b, Writer: a}, "mid/", []string{filepath.Join(dir, fmt.Sprintf("down-%d-%d", round, k))})
+					a.Close()
+					<-done
+				}(k)
+			}
+			wg.Wait()
+			<-sdone
+			cnt(&res, "transitions", 5)
+			cnt(&res, "states", 5)
+			for k, e := range errs {
+				if e != nil {
+					res.Fail = core.Fail("concurrent_session_failed", fmt.Sprintf("round %d: ordinary session %d after an aborted download: %v", round, k, e), "part", "aborted")
+					return res
+				}
+				got, _ := tm.Snapshot(filepath.Join(dir, fmt.Sprintf("down-%d-%d", round, k)), false)
+				got, _ = got.WithoutTemps()
+				if d := tm.Diff(mid, got, tm.Fields{}); len(d) > 0 {
+					res.Fail = core.Fail("sessions_interfere", fmt.Sprintf("round %d: ordinary session %d after an aborted download got other data: %s", round, k, trunc(strings.Join(d, ";"), 300)), "part", "aborted")
+					return res
+				}
+			}
+		}
+		cnt(&res, "executions", 1)
+		res.Nontrivial = true
+		res.Outcome = "ok/aborted"
+		return res
+	}}
+}
+
 func init() {
 	core.Register(&core.Prop{
 		ID:    "C18",
 		Level: "model_checking",
-		Rule: "single: every order in which pending transport operations of client and server complete, with <=1 (thorough <=2) deviations (preemptions; 1-byte and half transfers) from the run-to-completion schedule, explored by stateless DFS under a synctest-based controlled scheduler, for arrangements {lib-pull, lib-push, daemon-pull, daemon-push} x capacities {0,1,7,65536,inf}^2 x trees {tiny, many-tiny; huge-literal and huge-sum-list at capacities {0,4096,65536,inf}^2}; two: two sessions on one Server (pull||pull, pull||upload, upload||upload to distinct and to the identical target) interleaved at operation granularity; local: the in-process-server local copy inside a bubble (deadlock = every goroutine durably blocked); race: free-running concurrent pulls and uploads on one Server under the race detector with GOMAXPROCS in {1,2,4,16}. " +
+		Rule: "single: every order in which pending transport operations of client and server complete, with <=1 (thorough <=2) deviations (preemptions; 1-byte and half transfers) from the run-to-completion schedule, explored by stateless DFS under a synctest-based controlled scheduler, for arrangements {lib-pull, lib-push, daemon-pull, daemon-push} x capacities {0,1,7,65536,inf}^2 x trees {tiny, many-tiny; huge-literal and huge-sum-list at capacities {0,4096,65536,inf}^2}; two: two sessions on one Server (pull||pull, pull||upload, upload||upload to distinct and to the identical target) interleaved at operation granularity; local: the in-process-server local copy inside a bubble (deadlock = every goroutine durably blocked); race: free-running concurrent pulls and uploads on one Server under the race detector with GOMAXPROCS in {1,2,4,16}; aborted: rounds of a 24 MiB download dropped by the peer mid-file followed at once by 4 concurrent ordinary downloads on the same Server, under the race detector. " +
 			"oracle: every execution finishes (structural deadlock detection, no timeouts) and its outcome (errors, destination snapshot, no leftover temp files) equals the deviation-free outcome / the solo outcome. states = scheduling points visited, transitions = transport operations executed",
 		Assum: []string{"goroutines blocked in file-system syscalls are not scheduling points (synctest.Wait waits for them)", "the cooperative scheduler hides data races; they are looked for in the separate free-running -race part"},
 		Parts: func(tier string) []core.Part {
@@ -616,6 +718,7 @@ func init() {
 				{Name: "two", Build: c18BuildTwo},
 				{Name: "local", Build: c18BuildLocal},
 				{Name: "race", Build: c18BuildRace, Race: true, Par: 4},
+				{Name: "aborted", Build: c18BuildAborted, Race: true, Par: 3},
 			}
 		},
 	})
